@@ -408,11 +408,24 @@ func (hash *SexpHash) HashDelete(key Sexp) error {
 		return nil
 	}
 
-	hash.NumKeys--
 	for i, pair := range arr {
 		res, err := hash.Env.Compare(pair.Head, key)
 		if err == nil && res == 0 {
-			hash.Map[hashval] = append(arr[0:i], arr[i+1:]...)
+			rest := append(arr[0:i:i], arr[i+1:]...)
+			if len(rest) == 0 {
+				delete(hash.Map, hashval)
+			} else {
+				hash.Map[hashval] = rest
+			}
+			hash.NumKeys--
+			// keep KeyOrder in sync: it lists the live keys only.
+			for j, k := range hash.KeyOrder {
+				res, err := hash.Env.Compare(k, key)
+				if err == nil && res == 0 {
+					hash.KeyOrder = append(hash.KeyOrder[0:j:j], hash.KeyOrder[j+1:]...)
+					break
+				}
+			}
 			break
 		}
 	}
